@@ -71,7 +71,7 @@ def posLine (msg : Bytes) : String :=
 
 def msgLines (m : Except Err Bytes) : List String :=
   match m with
-  | .ok b => [s!"msg {Proto.hex b}", posLine b]
+  | .ok b => [s!"msg {Proto.hex b}", posLine b, s!"copy 1 {b.length} {fnv b}"]
   | .error _ => ["oob"]
 
 def envDbl (obs : List (List String)) : Option (Bytes × Bytes × Bytes × Bool) :=
@@ -310,6 +310,13 @@ def showsNumber (msg : Bytes) (dec hx : Bytes) (what : String) : Except String U
 def specFailure (w : List String) (obs : List (List String)) : Except String Unit := do
   let some msg := obsMsg obs | throw "no message observed"
   let some pos := obsPos obs | throw "no position line observed"
+  -- the copy constructor: the failure the reporters keep must say the same
+  for l in obs do
+    match l with
+    | ["copy", same, len, h] =>
+      if same ≠ "1" then throw "the copy-constructed failure differs from the failure that was built"
+      if len.toNat? ≠ some msg.length ∨ h.toNat? ≠ some (fnv msg) then throw "the copy-constructed failure carries a different message"
+    | _ => pure ()
   match w with
   | ["equals", e, a, _] =>
     let some e := operand? e | throw "bad-op"
